@@ -8,12 +8,12 @@ VC=/tmp/verif_seedcheck_$NAME
 mkdir -p $SD && cp $WT/OUT/patch.diff $WT/OUT/demo.diff $WT/OUT/notes.md $SD/ 2>/dev/null
 [ -n "$SKIP_VERIFY" ] || /verif/tools/verify_seeded.sh $WT $SD "$DEMO" 2>&1 | tee $SD/confirm.txt
 cd $WT && git checkout -q -- . && git clean -fdq -e target -e OUT && git apply $SD/patch.diff || exit 1
-mkdir -p $VC && rsync -a --delete --exclude target --exclude .scratch --exclude .git --exclude replays --exclude evidence /verif/ $VC/
+mkdir -p $VC && rsync -a --delete --exclude target --exclude target-asan --exclude target-tsan --exclude .scratch --exclude .git --exclude replays --exclude evidence /verif/ $VC/
 mkdir -p $VC/evidence
 [ -d $VC/target ] || cp -r /verif/target $VC/target
 : > $SD/check_quick.txt
 for PROP in ${PROPS//,/ }; do
-  (cd $VC && VERIF_REPO=$WT ./check $PROP --tier quick 2>&1 | grep -E "signature:|^$PROP quick|^VIOLATION|^INCONCLUSIVE|^KNOWN" | cut -c1-260 | tee -a $SD/check_quick.txt)
+  (cd $VC && VERIF_NO_ASAN=1 VERIF_REPO=$WT ./check $PROP --tier quick 2>&1 | grep -E "signature:|^$PROP quick|^VIOLATION|^INCONCLUSIVE|^KNOWN" | cut -c1-260 | tee -a $SD/check_quick.txt)
 done
 cd $WT && git checkout -q -- .
 rm -rf $VC
